@@ -283,6 +283,8 @@ impl InsertionHeuristic {
             match result {
                 InsertionResult::Success(success) => {
                     apply_insertion_success(&mut insertion_ctx, success);
+                    #[cfg(reinterpretcat_vrp_verif)]
+                    crate::verif::on_insertion_applied(&insertion_ctx, crate::verif::InsertionSite::ConstructionLoop);
                 }
                 InsertionResult::Failure(failure) => {
                     // NOTE copy data to make borrow checker happy
@@ -401,7 +403,7 @@ pub(crate) fn apply_insertion_success(insertion_ctx: &mut InsertionContext, succ
     insertion_ctx.problem.goal.accept_insertion(&mut insertion_ctx.solution, route_index, &job);
 
     #[cfg(reinterpretcat_vrp_verif)]
-    crate::verif::on_insertion_applied(insertion_ctx);
+    crate::verif::on_insertion_applied(insertion_ctx, crate::verif::InsertionSite::Applied);
 }
 
 fn apply_insertion_failure(
